@@ -523,6 +523,7 @@ K_BOOL = "cexpr:conv_to_bool:value_not_0_or_1"
 K_UAC = "cexpr:uac:ulong_llong_gives_ulong"
 K_DIV0 = "cexpr:reject:division_by_zero_in_unevaluated_operand"
 K_DIVMIN = "cexpr:compiler_crash:min_div_minus1_in_unevaluated_operand"
+K_GENDIVMIN = "cexpr:crash:gen_O2_folds_min_div_minus1_in_unevaluated_operand"
 K_ANDSWAP = "cexpr:crash:gen_O2_zero_extension_of_and_with_constant_first"
 K_BFALIAS = "cexpr:bitfield:bool_member_initialiser_alias"
 K_ADDR = "cexpr:local:narrow_object_stored_through_pointer_then_read"
@@ -579,7 +580,9 @@ def classify(fails):
                 keyed.append((K_DIV0, r))
                 continue
             if st.startswith(("crash(-8)", "crash(136)")) and c["uu"] and any(s.startswith(("/", "%")) for s in sgs):
-                keyed.append((K_DIVMIN, r))
+                # SIGFPE while folding MIN / -1 of an operand that is never evaluated: in c2mir (every engine) or in the
+                # generator's GVN (-O2 and above only)
+                keyed.append((K_GENDIVMIN if only_o2 else K_DIVMIN, r))
                 continue
             if st.startswith("crash") and only_o2 and any(s.startswith("&") for s in sgs):
                 keyed.append((K_ANDSWAP, r))
